@@ -79,6 +79,7 @@ def opTree (j : Json) : Except String Json := do
         | .ok w' => w := w'
         | .error _ => pure ()
       | "add" => w := w.add (← tree a)
+      | "set_kp" => w := w.setKp (← keyPat a)
       | _ => throw "bad tree op"
     | [k, a, b] =>
       match ← k.getStr? with
